@@ -267,6 +267,14 @@ class Tables:
                     org = ctx.origin(node) if node is not None else None
                     rows.append({'fn': q, 'cast': callee_def(e).split('::')[-1], 'pos': org,
                                  'guard': self.gk(ctx.guards(anc)), 'line': e['ln'], 'via': evalfn})
+                # `eval_any(ctx, NODE, ann).map(cast_x)`: the cast handed over as a function item
+                if e['k'] == 'mcall' and e['name'] in ('map', 'and_then') and e['args']:
+                    a0 = e['args'][0]
+                    if a0['k'] == 'path' and a0['p'].get('res') == 'def' and (a0['p'].get('def') or '').startswith('eval::cast_'):
+                        node, evalfn = find_eval_node(ctx, e['recv'])
+                        org = ctx.origin(node) if node is not None else None
+                        rows.append({'fn': q, 'cast': a0['p']['def'].split('::')[-1], 'pos': org,
+                                     'guard': self.gk(ctx.guards(anc)), 'line': e['ln'], 'via': evalfn})
         return rows
 
     def check_side(self):
@@ -322,6 +330,18 @@ class Tables:
                 ts = self.tag_expr(ctx, b)
                 if ts is None and b['k'] == 'path' and b['p'].get('res') == 'local':
                     src = ctx.bind.get(b['p']['hid'])
+                    if src and src[0] == 'arm':
+                        # `if let Some(t) = match .. {..}` or the match bound to a local first (`let expected = match ..`)
+                        scr = src[1]
+                        hops = 0
+                        while scr['k'] == 'path' and scr['p'].get('res') == 'local' and hops < 4:
+                            s2 = ctx.bind.get(scr['p']['hid'])
+                            if not s2 or s2[0] != 'let':
+                                break
+                            scr = s2[1]
+                            hops += 1
+                        if scr['k'] == 'match':
+                            src = ('arm', scr) + tuple(src[2:])
                     if src and src[0] == 'arm' and src[1]['k'] == 'match':
                         m = src[1]
                         enum = m['scrut']['ty'].split('::')[-1]
